@@ -135,6 +135,13 @@ def gen_specs(rng, thorough):
                 if rng.random() < 0.5:
                     sp.reverse()
                 specs.append(sp)
+    # (f) pairs of DIFFERENT elements between the generic limit and the largest special limit, in both atom orders (no special rule applies to them)
+    for e1, e2 in (("S", "Se"), ("Se", "Se"), ("S", "O"), ("F", "Cl")):
+        for dist in (1.9, 2.1, 2.3, 2.45):
+            for base in ((0.4, 0.5, 0.6), (2.4, -2.6, 5.0)):
+                a, b = (e1, base), (e2, (r3(base[0] + dist), base[1], base[2]))
+                specs.append([a, b])
+                specs.append([b, a])
     # (c) a disulfide slid along x through a cell boundary
     for t in ([i * 0.01 for i in range(0, 260, 7)] if thorough else [i * 0.05 for i in range(0, 52, 5)]):
         specs.append([("S", (r3(1.0 + t), 0.1, 0.2)), ("C", (r3(1.0 + t - 1.8), 0.1, 0.2)), ("S", (r3(1.0 + t + 2.04), 0.1, 0.2)), ("C", (r3(1.0 + t + 3.84), 0.1, 0.2))])
@@ -247,7 +254,7 @@ def run(chk: common.Check):
     for sp in specs:
         adj, bridge = plain_run(sp)
         n = len(sp)
-        ok_el = all(el in ("C", "N", "O", "S", "H", "F", "Cl", "Zn", "") for el, _ in sp)
+        ok_el = all(el in ("C", "N", "O", "S", "H", "F", "Cl", "Zn", "Se", "") for el, _ in sp)
         for i in range(n):
             if i in adj[i] or len(set(adj[i])) != len(adj[i]):
                 found.append(("self-or-duplicate-bond", f"atom {i} bonded list {adj[i]}", {"atoms": sp}))
@@ -301,6 +308,17 @@ def run(chk: common.Check):
             elif bonds != ref:
                 d = sorted(set(bonds) ^ set(ref))[:4]
                 found.append(("bonds-depend-on-pose", f"{name}: heavy-atom bonds differ after a rigid motion {sh}: {d}", {"pdb": name, "shift": sh, "diff": d}))
+            if ref is bonds and any(g.atom.cysteine_bridge for g in conf.groups):
+                # "not titrated": neither in the folded nor in the unfolded charge curve (sum over the titratable groups only)
+                par_ = mol.version.parameters
+                for ph_ in (7.0, 10.0, 12.0):
+                    qu_, qf_ = conf.calculate_charge(par_, ph=ph_)
+                    wu_ = sum(g.charge / (1.0 + 10.0 ** (g.charge * (ph_ - g.model_pka))) for g in conf.groups if g.titratable)
+                    wf_ = sum(g.charge / (1.0 + 10.0 ** (g.charge * (ph_ - g.pka_value))) for g in conf.groups if g.titratable)
+                    if abs(qu_ - wu_) > 1e-6 or abs(qf_ - wf_) > 1e-6:
+                        found.append(("bridged-cys-in-charge-curve", f"{name} pH {ph_}: (unfolded, folded) charge ({qu_:.4f}, {qf_:.4f}) but the titratable groups (bridged cysteines excluded) give "
+                                      f"({wu_:.4f}, {wf_:.4f})", {"pdb": name, "ph": ph_}))
+                        break
             for g in conf.groups:
                 if g.atom.cysteine_bridge and (g.titratable or g.pka_value != 99.99):
                     found.append(("bridged-cys-titrated", f"{name}: {g.label} is in a disulfide bridge but titratable={g.titratable}, pKa={g.pka_value}", {"pdb": name}))
